@@ -1859,8 +1859,15 @@ class StateEngine(object):
                 if task_terminated:
                     if execution_arn in self.branch_metadata:
                         self.check_pending_results(execution_arn)
-                    else:
-                        self.end_execution(state_machine, state_type, event)           
+                    """
+                    The Task, or a Task in a Map or Parallel state, of a child
+                    execution has been cancelled because its parent's Task was.
+                    That must end the child execution too, unless the failure
+                    that caused the cancellation has already ended it.
+                    """
+                    execution_detail = self.executions.get(execution_arn)
+                    if not execution_detail or execution_detail.get("status") == "RUNNING":
+                        self.end_execution(state_machine, state_type, event)
                 else:
                     self.end_execution(state_machine, state_type, event)
 
